@@ -33,6 +33,7 @@ type EntrySpec struct {
 	MaxSteps      int            `json:"max_steps"`
 	MaxSeconds    int            `json:"max_seconds"`
 	Solver        string         `json:"solver"`
+	CallDepthCrash int           `json:"call_depth_crash"` // nesting deeper than this counts as the target's stack overflow
 	SyncFiles     []string       `json:"sync_files"` // files under test whose lock acquisitions are scheduling points (thread layer)
 }
 
@@ -183,7 +184,7 @@ func CmdCheck(args []string) int {
 			problems = append(problems, err.Error())
 			continue
 		}
-		cfg := interp.Config{MapOrderAll: e.MapOrderAll, MapOrderRotations: e.MapRotations, MapOrderSeeds: e.MapOrderSeeds, SymbolicNanos: e.SymbolicNanos, Bounds: bounds, KnownOpen: knownOpen, MaxSteps: e.MaxSteps, SolverKind: e.Solver, Trace: *verbose, SyncFiles: e.SyncFiles}
+		cfg := interp.Config{MapOrderAll: e.MapOrderAll, MapOrderRotations: e.MapRotations, MapOrderSeeds: e.MapOrderSeeds, SymbolicNanos: e.SymbolicNanos, Bounds: bounds, KnownOpen: knownOpen, MaxSteps: e.MaxSteps, SolverKind: e.Solver, Trace: *verbose, SyncFiles: e.SyncFiles, CallDepthCrash: e.CallDepthCrash}
 		if *tier == "thorough" {
 			cfg.TimeoutMs = 120000
 		}
@@ -594,6 +595,9 @@ func NativeReplay(rf ReplayFile, path string) (bool, string) {
 				return true, "panic reproduced natively"
 			}
 		}
+	}
+	if strings.Contains(txt, "fatal error: stack overflow") && (strings.Contains(rf.Label, "crash") || strings.Contains(rf.Label, "panic")) {
+		return true, "the native run dies with 'fatal error: stack overflow'"
 	}
 	for _, ln := range strings.Split(txt, "\n") {
 		if strings.HasPrefix(ln, "REPLAY-") || strings.Contains(ln, "FAIL") || strings.Contains(ln, "panic") {
